@@ -48,6 +48,16 @@ REG = {
         ],
         "trusted_base": ["translator: Gen/Locks.v (linear Lock/Unlock scan per function)", "modelled, not verified: sync.Mutex, goroutine scheduling, io.ReadAll's buffer growth"],
     },
+    "C10": {
+        "assumptions": [
+            "trees of folders and plain files with ASCII names, no aliases, no stored resource/info forks (PreserveResourceForks off); the requested folder's own name does not start with a dot",
+            "filepath.Walk visits entries in byte order of their names, a folder before its content",
+            "the flattened-file payload of a file without forks is 130 bytes + the name (24 header, 16 INFO fork header, 74 info fork, 16 DATA fork header); dates inside it are not compared",
+            "the client behaves like the reference client of the harness: it answers every header, sends 00 03 after every file, streams parent folders before their content",
+            "item counts stay below 65,536 (uint16)",
+        ],
+        "trusted_base": ["std++ gmap", "reference folder-transfer client in harness/c10.go", "modelled, not verified: filepath.Walk, net.Pipe, os file operations"],
+    },
     "C11": {
         "assumptions": [
             "names are wire (Mac Roman) byte strings; the disk holds their UTF-8 decodings; the listing encoder and ReadPath's decoder are inverse on every name (theorem over Base/MacRoman.v's table; the table itself is tied to the library by C07's and this correspondence)",
